@@ -32,7 +32,7 @@ RULE = ("pairwise covering array over {projection, parametrization, grid, slice 
 BOUNDS = {
     "cell": "orthogonal, a,b in [3,6] A, c in [3,5] A", "atoms": "1..6 atoms, species from H C O Si Cu Ag Au",
     "gpts_pool": [[16, 16], [15, 18], [20, 12], [9, 14], [24, 24], [13, 13]],
-    "projection": ["infinite", "finite"], "parametrization": ["lobato", "kirkland", "peng"],
+    "projection": ["infinite", "finite"], "parametrization": ["lobato", "kirkland", "peng", "lobato_sigmas"],
     "slice_thickness": ["2.0", "0.9", "sequence"],
     "pixel_shifts": "|s| <= 2.5 * gpts, 4-5 per case (incl. whole periods for atoms on the cell faces)", "repetitions_pool": [[2, 1, 1], [1, 2, 1], [1, 1, 2], [2, 2, 1],
                                                                             [3, 2, 1], [2, 3, 2], [1, 1, 3], [1, 1, 1]],
@@ -95,6 +95,18 @@ def _shifts(r, gpts, special=False):
         out[3] = [-gx, int(r.integers(0, gy))]
         out.append([int(r.integers(1, gx)), gy * int(r.integers(1, 3))])       # whole periods in y, atom 0 at y = b-1e-9
     return out
+
+
+def _param(case, atoms):
+    """parametrization argument of the case; `<name>_sigmas` = the parametrization object with thermal smearing
+    (per-element standard deviations), which blurs every atom's potential periodically"""
+    name = case["parametrization"]
+    if not name.endswith("_sigmas"):
+        return name
+    from abtem.parametrizations import LobatoParametrization
+
+    syms = sorted(set(atoms.get_chemical_symbols()))
+    return LobatoParametrization(sigmas={sym: 0.06 + 0.03 * i for i, sym in enumerate(syms)})
 
 
 def cases(tier, seed):
@@ -185,7 +197,7 @@ def _build(atoms, case, gpts=None, st=None):
     import abtem
 
     pot = abtem.Potential(atoms, gpts=tuple(gpts or case["gpts"]), projection=case["projection"],
-                          parametrization=case["parametrization"], slice_thickness=_st(case) if st is None else st)
+                          parametrization=_param(case, atoms), slice_thickness=_st(case) if st is None else st)
     return pot, pot.build(lazy=False)
 
 
@@ -247,7 +259,7 @@ def _run_tile(case):
         ok2, msg2 = _cmp(tiled2.array, sup_arr)
         out.append(Res("C08/tile/equals-supercell", ok2, f"two-int reps ({rx},{ry}): {msg2}", nt))
     pu = built if case["unit_built"] else abtem.Potential(atoms, gpts=tuple(case["gpts"]), projection=case["projection"],
-                                                          parametrization=case["parametrization"], slice_thickness=st)
+                                                          parametrization=_param(case, atoms), slice_thickness=st)
     cp = abtem.CrystalPotential(pu, repetitions=(rx, ry, rz))
     cb = cp.build(lazy=case["lazy"])
     if case["lazy"]:
